@@ -220,6 +220,8 @@ pub struct Model<'a> {
     recovered: u32,
     /// wrap every node's value in `Val::Node` (mirrors `mk::Opts::wrap`)
     pub wrap: bool,
+    /// ... together with its slice (mirrors `mk::Opts::slice`)
+    pub wrap_slice: bool,
     /// position of the most recent failure event
     last_fail_pos: usize,
 }
@@ -248,6 +250,10 @@ pub fn run(g: &G, w: &[char], st0: St, budget: u64) -> Outcome {
 }
 
 pub fn run_opts(g: &G, w: &[char], st0: St, budget: u64, wrap: bool) -> Outcome {
+    run_opts2(g, w, st0, budget, wrap, false)
+}
+
+pub fn run_opts2(g: &G, w: &[char], st0: St, budget: u64, wrap: bool, wrap_slice: bool) -> Outcome {
     let mut m = Model {
         w,
         pend: None,
@@ -260,6 +266,7 @@ pub fn run_opts(g: &G, w: &[char], st0: St, budget: u64, wrap: bool) -> Outcome 
         depth: 0,
         recovered: 0,
         wrap,
+        wrap_slice,
         last_fail_pos: 0,
     };
     // SAFETY of lifetimes: `g` outlives the model; transmute-free by re-borrowing
@@ -356,6 +363,10 @@ impl<'a> Model<'a> {
         let r = self.ev_inner(g, p, st, cx);
         self.depth -= 1;
         match r {
+            R::Ok { v, end, st, em } if self.wrap && self.wrap_slice => {
+                let sl = Val::Slice { s: self.w[p..end].iter().collect(), off: p };
+                R::Ok { v: Val::node(g.id, p, end, Val::pair(sl, v)), end, st, em }
+            }
             R::Ok { v, end, st, em } if self.wrap => R::Ok { v: Val::node(g.id, p, end, v), end, st, em },
             r => r,
         }
